@@ -21,7 +21,7 @@ def gen_config(outdir):
 def lib_sources():
     return sorted(glob.glob(os.path.join(REPO, 'src', '*.c')))
 
-CFLAGS = ['-I' + os.path.join(REPO, 'include'), '-DURI_LIBRARY_BUILD', '-D' + GUARD, '-fno-builtin', '-Wno-everything']
+CFLAGS = ['-I' + os.path.join(REPO, 'include'), '-DURI_LIBRARY_BUILD', '-D' + GUARD, '-fno-builtin', '-D__NO_CTYPE', '-Wno-everything']
 
 def build_lib_ir(outdir):
     """compile every library unit to IR; returns (list of .ll, names of writable library globals)"""
@@ -52,7 +52,7 @@ def build_module(outdir, harness_c, defines=(), name=None, lib=None):
     inc = ['-I' + os.path.join(VERIF, 'harness'), '-I' + os.path.join(VERIF, 'oracle'), '-I' + os.path.join(outdir), '-I' + libdir, '-I' + os.path.join(REPO, 'src')]
     sh(['clang-14', '-O1', '-Xclang', '-disable-llvm-passes', '-S', '-emit-llvm'] + inc + CFLAGS + ['-D' + d for d in defines] + [harness_c, '-o', hll])
     lcll = os.path.join(outdir, name + '.libc.ll')
-    sh(['clang-14', '-O1', '-Xclang', '-disable-llvm-passes', '-S', '-emit-llvm', '-fno-builtin'] + ['-D' + d for d in defines] + [os.path.join(VERIF, 'harness', 'uk_libc.c'), '-o', lcll])
+    sh(['clang-14', '-O1', '-Xclang', '-disable-llvm-passes', '-S', '-emit-llvm', '-fno-builtin', '-D__NO_CTYPE'] + ['-D' + d for d in defines] + [os.path.join(VERIF, 'harness', 'uk_libc.c'), '-o', lcll])
     linked = os.path.join(outdir, name + '.linked.ll'); final = os.path.join(outdir, name + '.ll')
     sh(['llvm-link-14', '-S'] + lls + [lcll, hll, '-o', linked])
     sh(['opt-14', '-S', '-passes=function(sroa)', linked, '-o', final])
